@@ -285,8 +285,13 @@ def oracle(py, pyi, out):
         res.append(Finding("bare-any-never-inserted:var", "declaration `%s` inserted" % ast.unparse(st)))
       want = {_ann_key(a) for a in vars_.get(qn, [])}
       if _ann_key(st.annotation) not in want:
-        res.append(Finding("hoisted-declaration-not-the-stubs", "module-level `%s` inserted, the stub gives %s for %s" % (
-            ast.unparse(st), sorted(ast.unparse(a) for a in vars_.get(qn, [])) or "nothing", qn)))
+        dotted = {a.attr for a in vars_.get(qn, []) if isinstance(a, ast.Attribute)}
+        if isinstance(st.annotation, ast.Name) and st.annotation.id in dotted:
+          res.append(Finding("dotted-annotation-dequalified", "module-level `%s` inserted, the stub says `%s`" % (
+              ast.unparse(st), "/".join(ast.unparse(a) for a in vars_.get(qn, []) if isinstance(a, ast.Attribute)))))
+        else:
+          res.append(Finding("hoisted-declaration-not-the-stubs", "module-level `%s` inserted, the stub gives %s for %s" % (
+              ast.unparse(st), sorted(ast.unparse(a) for a in vars_.get(qn, [])) or "nothing", qn)))
     elif isinstance(st, ast.ClassDef):
       res.append(Finding("fresh-class-inserted", "class %s of the stub was inserted into the source" % st.name))
     else:
@@ -294,6 +299,19 @@ def oracle(py, pyi, out):
   for o, m in pairs:
     cmp_stmt(o, m, [])
   return res
+
+
+def _stub_has_dotted(pyi):
+  tree = ast.parse(pyi)
+  anns = []
+  for n in ast.walk(tree):
+    if isinstance(n, (ast.FunctionDef, ast.AsyncFunctionDef)) and n.returns is not None:
+      anns.append(n.returns)
+    elif isinstance(n, ast.arg) and n.annotation is not None:
+      anns.append(n.annotation)
+    elif isinstance(n, ast.AnnAssign):
+      anns.append(n.annotation)
+  return any(isinstance(x, ast.Attribute) for a in anns for x in ast.walk(a))
 
 
 # fingerprints: oracle finding kind (+ cause established by the model's monitors) -> stable name
@@ -445,7 +463,7 @@ def _work(job):
         compile(out, "<merged>", "exec", dont_inherit=True)
       except SyntaxError as e:
         d["nocompile"] = str(e)
-  if out is not None and "skip" not in d:
+  if out is not None and "nocompile" not in d:
     try:
       d["findings"] = oracle(py, pyi, out)
     except Exception as e:   # an oracle crash must not pass silently
@@ -507,10 +525,11 @@ def run(res):
   res.trusted_base += ["harness/props/c20_proj.py (ast -> mini tree, serialiser mirrored in Model.ser_item)",
                        "CPython ast/compile as the notion of 'same syntax tree' and 'compiles'"]
   r = common.rng(res.seed, "c20")
-  inputs = corpus_cases() + generated_cases(r, 700 if thorough else 70, thorough)
+  inputs = corpus_cases() + generated_cases(r, 700 if thorough else 60, thorough)
   t_impl = time.time()
   recs = []           # dict per explorable case
   skipped = {}
+  skipped_recs = []   # outside the model's domain: no correspondence, but the oracle still applies
   n_inferred = 0
   import multiprocessing
   from pytype.tools.merge_pyi import merge_pyi  # noqa: F401  (imported before forking)
@@ -524,6 +543,7 @@ def run(res):
       if d.get("nocompile"):
         res.violation("output-does-not-compile", "merge_sources output does not compile: %s" % d["nocompile"],
                       {"py": d["py"], "pyi": d["pyi"]})
+      skipped_recs.append(d)
       continue
     recs.append(d)
   res.extra["impl_seconds"] = round(time.time() - t_impl, 1)
@@ -548,6 +568,9 @@ def run(res):
     variant = "as-written" if n_aw >= n_fx else "fixed"
   vbit = 1 if variant == "as-written" else 2
   res.extra["variant_followed"] = variant
+  res.extra["applicable_no_bare_theorems"] = (
+      ["no_bare_any_never_refuted", "no_bare_any_never_partial"] if variant == "as-written" else
+      ["no_bare_any_never_partial", "no_bare_any_never_fixed_vars", "no_bare_any_never_fixed_decls"])
   res.obligation("correspondence:variants-distinguished", n_diff > 0,
                  "%d cases tell the as-written and the fixed leave_AnnAssign apart" % n_diff)
   mism = [(c, b) for c, b in ok_cases if not b & vbit]
@@ -556,7 +579,7 @@ def run(res):
   mon = {"leak": 0, "clsdecl": 0, "non-typing-import": 0, "fresh-class": 0, "generic-base": 0}
   reported = {}
   n_viol_cases = 0
-  for c, b in zip(recs, bits):
+  for c, b in list(zip(recs, bits)) + [(c, 0) for c in skipped_recs if c.get("out") is not None]:
     b = b or 0
     for k, w in (("leak", 4), ("clsdecl", 8), ("non-typing-import", 16), ("fresh-class", 32), ("generic-base", 64)):
       if b & w:
@@ -570,13 +593,19 @@ def run(res):
     res.count((c["py"], c["pyi"]) if changed else None)
     if changed and len(res.samples) < 3 and len(c["py"]) < 200:
       res.sample({"py": c["py"], "pyi": c["pyi"], "merged": c["out"]})
-    fs = c["findings"]
+    fs = c.get("findings", [])
     if fs:
       n_viol_cases += 1
     for f in fs:
       fp = fingerprint(f, variant, b)
       reported.setdefault(fp, []).append((c, f))
   res.extra["oracle_finding_cases"] = {k: len(v) for k, v in reported.items()}
+  # every finding must be explained by a failed hypothesis of the partial theorems: the leak / hoisting
+  # fingerprints are only given when the model's monitor fired; a dotted-annotation finding needs a
+  # dotted annotation in the stub
+  unexplained = [c["name"] for c, f in reported.get("dotted-annotation-bogus-import", []) if not _stub_has_dotted(c["pyi"])]
+  res.obligation("oracle-vs-hypotheses", not unexplained,
+                 "dotted-annotation findings on stubs without a dotted annotation: %s" % unexplained[:5])
   for fp, lst in sorted(reported.items()):
     lst.sort(key=lambda cf: len(cf[0]["py"]) + len(cf[0]["pyi"]))
     c, f = lst[0]
